@@ -1,7 +1,6 @@
 (* FDL oracle soundness, part 8: R06_no_backoff (theorem C06_backoff against the second monitor; invariant UB:
    last_bus_activity is not later than the last poll or the predicted end of the last transmission the monitor
-   knows), and ALL rule groups treated so far in one induction: theorem fdl_oracle_sound - a rule reported on a
-   transcript of the model is one of `open_rules` (the rules whose soundness is not proved yet). *)
+   knows). *)
 From Coq Require Import Arith.
 From PB Require Import Common Tables FdlTables Telegram Phy TokenRing Params Fdl FdlOracle FdlProofs FdlStepProofs.
 From PB Require Import C05Proofs C01Proofs C11Proofs C15Proofs C13Proofs C12Proofs.
@@ -105,115 +104,3 @@ Proof.
 Qed.
 
 End Backoff.
-
-(* ------------------------------------------------------------------------------------------ *)
-(* all rule groups treated so far in ONE induction: what may still be reported                   *)
-
-(* rules whose soundness is NOT proved here (R05_panic: see c05_oracle_sound, a separate induction) *)
-Definition open_rules : list rule :=
-  [R05_panic;
-   R11_accept_while_listening; R11_accept_without_token; R11_accept_from_stranger;
-   R11_retry_too_early; R11_too_many_retries; R11_removed_too_early; R11_heard_but_supervising;
-   R11_supervision_never_ends; R11_offer_changes_ring_view;
-   R12_reply_without_request; R12_reply_untruthful; R12_reply_from_wrong_state;
-   R12_sweep_bound; R12_post_claim_scan_incomplete; R12_gap_wait_never_ends;
-   R15_no_reply_no_timeout].
-
-Definition may_fire (r : rule) : Prop := In r open_rules.
-Ltac in_leaf := unfold may_fire, open_rules; cbn; repeat (first [left; reflexivity | right]).
-
-Section Master.
-Variable A : Type.
-Variable ops : app_ops A.
-Variable p : params.
-Hypothesis Happs : apps_total A ops.
-Hypothesis Hbv : builder_valid p.
-Hypothesis Hdata : app_sends_data A ops.
-
-Definition J8 (n : nat) (f : fdl) (apps : list A) (buf : bytes) (tl : Z) (m : mon) (g : mon2) : Prop :=
-  J7 A p n f apps buf tl m g /\ TI f tl m /\ UB f tl g.
-
-Lemma x_e11a_open m s : onlyr may_fire (x_e11a p m s).
-Proof. unfold x_e11a. cbv zeta. solve_onlyr in_leaf. Qed.
-Lemma x_e11c_open m s : onlyr may_fire (x_e11c p m s).
-Proof. unfold x_e11c. cbv zeta. solve_onlyr in_leaf. Qed.
-Lemma x_e11b_open m s : onlyr may_fire (x_e11b p m s).
-Proof. unfold x_e11b. cbv zeta. solve_onlyr in_leaf. Qed.
-Lemma x_e12b_open m s : onlyr may_fire (x_e12b p m s).
-Proof. unfold x_e12b. cbv zeta. solve_onlyr in_leaf. Qed.
-Lemma y_e_sweep_open m g s : onlyr may_fire (y_e_sweep p m g s).
-Proof. unfold y_e_sweep. cbv zeta. solve_onlyr in_leaf. Qed.
-Lemma y_e_scan_open m g s : onlyr may_fire (y_e_scan p m g s).
-Proof. unfold y_e_scan. cbv zeta. solve_onlyr in_leaf. Qed.
-Lemma y_e_live_open m g s : onlyr may_fire (y_e_live p m g s).
-Proof. unfold y_e_live. solve_onlyr in_leaf. Qed.
-
-Theorem fdl_oracle_sound (apps : list A) (ins : list minput) :
-  ins_ok 0 ins ->
-  forall k r, In (k, r) (monitor p (length apps) (model_transcript A ops p apps ins)) -> In r open_rules.
-Proof.
-  intros Hok.
-  apply (generic_sound_transcript A ops p (length apps) may_fire (J8 (length apps)) (fun _ => True)); try assumption; try reflexivity.
-  - in_leaf.
-  - intros a f apps0 buf tl m g f' ((((HB & c & HV) & HG) & HX) & HT & HU) E _. split; [split; [split|]|split].
-    + split; [eapply base_api; eassumption|]. eapply vi_api; eassumption.
-    + intros Hor. destruct a; cbn [mon_after_api fst]; try reflexivity.
-      * unfold api_result, set_online, set_state in E. cbn in E. injection E as <-. exact (HG Hor).
-      * discriminate E.
-    + eapply gx_api; eassumption.
-    + eapply ti_api; eassumption.
-    + eapply ub_api; eassumption.
-  - intros f apps0 buf tl m g now busy nb f' o apps' calls (((HJ & HG) & HX) & HT & HU) Hlt Hnow Hnb E _.
-    pose proof HJ as (HB & c & HV). assert (Hle : tl <= now) by lia.
-    destruct (J5_poll A ops p (length apps) Happs Hbv Hdata _ _ _ _ _ _ _ _ _ _ _ _ _ HJ Hlt Hnow Hnb E)
-      as ((c' & Hf & H15 & H13 & Hrr & Hend & HV') & HB').
-    destruct (gx_poll A ops p (length apps) Hdata _ _ _ _ _ _ _ _ _ _ _ _ _ HB HX E) as (Hfound & Htok & HX').
-    pose proof (c01_ok A ops p (length apps) Hbv _ _ _ _ _ _ _ _ _ _ _ _ HB HT Hle Hnow Hnb E) as H01.
-    pose proof (c06_ok A ops p (length apps) Hbv _ _ _ _ _ _ _ _ _ _ _ _ HB HT Hle Hnow Hnb E) as H06.
-    pose proof (backoff_ok A ops p (length apps) _ _ _ _ _ _ _ _ _ _ _ _ _ _ HB HV HX HU Hlt E) as Hbo.
-    split; [|split].
-    + rewrite mon_poll_eq. cbn [snd].
-      assert (H12a : x_e12a p m (poll_event now busy (buf ++ nb) f' o calls) = []) by (eapply e12a_ok; eassumption).
-      rewrite H01, H06, H12a, Hf, H15. cbn [app]. rewrite app_nil_r.
-      apply onlyr_app; [apply x_e11a_open|].
-      apply onlyr_app; [apply x_e11c_open|].
-      apply onlyr_app; [apply x_e11b_open|].
-      apply x_e12b_open.
-    + rewrite mon_poll2_eq. cbn [snd]. rewrite Hfound, Htok, H13, Hrr, Hend, Hbo. cbn [app]. rewrite app_nil_r.
-      apply onlyr_app; [apply y_e_sweep_open|].
-      apply onlyr_app; [apply y_e_scan_open|].
-      apply y_e_live_open.
-    + split; [split; [split|]|split].
-      * split; [exact HB'|exists c'; rewrite fst_mon_poll, mon_poll2_eq; exact HV'].
-      * rewrite fst_mon_poll. eapply gp_poll; eassumption.
-      * rewrite mon_poll2_eq. cbn [fst]. exact HX'.
-      * eapply ti_poll; eassumption.
-      * rewrite mon_poll2_eq. cbn [fst]. eapply ub_poll; eassumption.
-  - intros f0 apps0 E Hn _. split; [split; [split; [apply J5_init; assumption|intros _; reflexivity]|]|split].
-    + split; [|intros a C; discriminate C].
-      intros a Haw. exfalso. destruct (fdl_new_spec _ _ E) as ((S1 & _) & _). rewrite S1 in Haw. destruct Haw as [C|C]; discriminate C.
-    + destruct (J1_init A p Hbv _ _ _ E Hn) as (_ & HT). exact HT.
-    + intros l El. destruct (fdl_new_fields _ _ E) as (_ & _ & L1 & _). rewrite L1 in El. discriminate El.
-  - apply transcript_ok_true.
-Qed.
-
-(* per property: what is left *)
-Corollary c06_oracle_sound (apps : list A) (ins : list minput) :
-  ins_ok 0 ins ->
-  forall k r, In (k, r) (monitor p (length apps) (model_transcript A ops p apps ins)) -> rule_prop r <> PC06.
-Proof.
-  intros Hok k r Hin. pose proof (fdl_oracle_sound _ _ Hok _ _ Hin) as H. unfold open_rules in H. cbn in H.
-  repeat (destruct H as [<-|H]; [discriminate|]). contradiction.
-Qed.
-
-Corollary c12_open (apps : list A) (ins : list minput) :
-  ins_ok 0 ins ->
-  forall k r, In (k, r) (monitor p (length apps) (model_transcript A ops p apps ins)) -> rule_prop r = PC12 ->
-  In r [R12_reply_without_request; R12_reply_untruthful; R12_reply_from_wrong_state;
-        R12_sweep_bound; R12_post_claim_scan_incomplete; R12_gap_wait_never_ends].
-Proof.
-  intros Hok k r Hin Hp. pose proof (fdl_oracle_sound _ _ Hok _ _ Hin) as H. unfold open_rules in H. cbn in H.
-  repeat (destruct H as [<-|H]; [first [discriminate Hp | cbn; repeat (first [left; reflexivity | right])]|]). contradiction.
-Qed.
-
-End Master.
